@@ -74,6 +74,19 @@ def plan(tier, seed):
             for k in range(0, len(small), chunk):
                 groups.append([{"kind": "super", "xtal": name, "variant": var, "S": S, "symprec": 1e-5,
                                 "mag": "none", "mass": "none"} for S in small[k:k + chunk]])
+    # signed axis permutations with unequal multiplicities (6 x 8 x 27 = 1296 matrices): the supercell axes are columns of S
+    perm_mats = []
+    for pm_ in itertools.permutations(range(3)):
+        for sg in itertools.product((1, -1), repeat=3):
+            for mu in itertools.product((1, 2, 3), repeat=3):
+                M = np.zeros((3, 3), dtype=int)
+                for r in range(3):
+                    M[r, pm_[r]] = sg[r] * mu[r]
+                perm_mats.append(M.tolist())
+    for name in ("sc-1", "tri-P1-3"):
+        for k in range(0, len(perm_mats), 324):
+            groups.append([{"kind": "super", "xtal": name, "variant": "as-is", "S": S, "symprec": 1e-5, "mag": "none", "mass": "none"} for S in perm_mats[k:k + 324]
+                           if abs(SM.det3(S)) * len(cr[name]["symbols"]) <= 30])
     if tier == "thorough":
         for k in range(0, len(big), 2000):
             groups.append([{"kind": "super", "xtal": "sc-1", "variant": "as-is", "S": S, "symprec": 1e-5,
@@ -123,6 +136,13 @@ def plan(tier, seed):
                 for pm in ["none", "F", "I", "A", "C", "R", "half", "invS"]:
                     g.append({"kind": "prim", "xtal": name, "variant": "as-is", "S": S, "pm": pm, "dense": True, "snf": False, "mag": "none", "reorder": False, "extsym": "split"})
         groups.append(g)
+    # slightly distorted centred cells with a caller-chosen tolerance: the primitive cell is still found
+    g = []
+    for name in names:
+        for pm in cr[name]["centring"]:
+            for S in pm_S[:3]:
+                g.append({"kind": "prim-noisy", "xtal": name, "S": S, "pm": pm, "noise": 1e-4, "symprec": 1e-3})
+    groups.append(g)
     meta = {"alphabet": {"SMALL{-1,0,1}": len(small), "extra_matrices": len(extra), "crystals": len(names),
                          "small_cells": small_cells, "primitive_S": len(pm_S), "PMAT": 10,
                          "SMALL{-1,0,1,2}": (len(big) if tier == "thorough" else 0)},
@@ -380,6 +400,36 @@ def run_prim(case, seed):
     return out
 
 
+def run_prim_noisy(case, seed):
+    from phonopy import Phonopy
+
+    c = _xtal(case["xtal"], "as-is", seed)
+    g = np.random.default_rng(61 + seed)
+    L = np.array(c["lattice"], float)
+    pos = np.array(c["positions"], float) + (g.uniform(-1, 1, (len(c["symbols"]), 3)) * case["noise"]) @ np.linalg.inv(L)
+    cn = dict(c, positions=pos.tolist())
+    P = X.CENTRING[case["pm"]]
+    n_expect = int(round(len(c["symbols"]) * np.linalg.det(P)))
+    try:
+        ph = _quiet(Phonopy, X.to_phonopy(cn), supercell_matrix=np.array(case["S"], int), primitive_matrix=case["pm"], symprec=case["symprec"], is_symmetry=False)
+    except Exception as e:
+        return _fail("C04/prim-noisy/valid-rejected", "%s S=%s pm=%s, atoms off their sites by <= %g A, symprec=%g: rejected (%s: %s)" % (
+            case["xtal"], case["S"], case["pm"], case["noise"], case["symprec"], type(e).__name__, str(e)[:80]), nontrivial=True, transitions=1)
+    pr, sc = ph.primitive, ph.supercell
+    if len(pr) != n_expect or len(sc) != len(pr) * round(abs(SM.det3(case["S"])) / np.linalg.det(P)):
+        return _fail("C04/prim-noisy/atom-count", "%s pm=%s: %d primitive atoms (expected %d), %d supercell atoms" % (case["xtal"], case["pm"], len(pr), n_expect, len(sc)), nontrivial=True, transitions=1)
+    cart_s = sc.scaled_positions @ np.asarray(sc.cell)
+    cart_p = pr.scaled_positions @ np.asarray(pr.cell)
+    Lpi = np.linalg.inv(np.asarray(pr.cell))
+    p2p = pr.p2p_map
+    for i in range(len(sc)):
+        k = p2p[int(pr.s2p_map[i])]
+        n = (cart_s[i] - cart_p[k]) @ Lpi
+        if np.abs((n - np.rint(n)) @ np.asarray(pr.cell)).max() > 2.5 * case["noise"] or sc.symbols[i] != pr.symbols[k]:
+            return _fail("C04/prim-noisy/s2p", "supercell atom %d is not its primitive atom + a primitive lattice vector within the noise" % i, nontrivial=True, transitions=1)
+    return dict(ok=True, outcome="prim-noisy-ok", nontrivial=True, transitions=1)
+
+
 def judge_primitive(c, sc, pr, P, mags, trans):
     L = np.array(c["lattice"], float)
     Lp = P.T @ L
@@ -454,6 +504,8 @@ def run_group(cases, seed):
     for case in cases:
         if case["kind"] == "super":
             out.append(run_super(case, seed))
+        elif case["kind"] == "prim-noisy":
+            out.append(run_prim_noisy(case, seed))
         else:
             out.append(run_prim(case, seed))
     return out
